@@ -569,14 +569,112 @@ fn exhaustive(_pr: &PropRun) -> LaneReport {
     rep
 }
 
+// ---------------------------------------------------------------- programs the compiler must reject
+//
+// "No sequence of safe API calls reads freed memory" also covers programs that do not compile today: every public
+// constructor that takes a reference must tie the result to it, so a safe function cannot hand out a `'static` string,
+// label or key made from a borrow of a local. The lane writes such programs (one per constructor), asks the compiler,
+// and runs any program that is accepted — its output (content read back after the local was freed) is the evidence.
+
+const PROBES: [(&str, &str, &str); 8] = [
+    ("from_borrowed", "SharedString", "SharedString::from_borrowed(local.as_str())"),
+    ("const_str", "SharedString", "SharedString::const_str(local.as_str())"),
+    ("from_ref", "SharedString", "SharedString::from(local.as_str())"),
+    ("key_name_const", "KeyName", "KeyName::from_const_str(local.as_str())"),
+    ("label_static_parts", "Label", "Label::from_static_parts(local.as_str(), \"v\")"),
+    ("key_static_name", "Key", "Key::from_static_name(local.as_str())"),
+    ("key_static_parts", "Key", "Key::from_static_parts(local.as_str(), &[])"),
+    ("key_static_labels", "Key", "{ let labels = vec![Label::new(local.clone(), \"v\")]; Key::from_static_labels(\"n\", labels.as_slice()) }"),
+];
+
+fn probes(pr: &PropRun) -> crate::engine::runner::LaneReport {
+    use crate::engine::runner::{LaneReport, Violation};
+    use std::process::Command;
+    let start = std::time::Instant::now();
+    let mut rep = LaneReport::named("ill-typed-programs-rejected");
+    rep.exhaustive = true;
+    let repo = std::env::var("VERIF_REPO_ROOT").unwrap_or_else(|_| "/repo".to_string());
+    // next to the harness's own build output (target/release/harness -> target/probes)
+    let dir = std::env::current_exe().ok().and_then(|e| e.parent().and_then(|p| p.parent()).map(|p| p.join("probes"))).unwrap_or_else(|| std::path::PathBuf::from("probes"));
+    let harness_dir = crate::engine::report::verif_root().join("harness");
+    let setup = (|| -> std::io::Result<()> {
+        std::fs::create_dir_all(dir.join("src/bin"))?;
+        std::fs::write(dir.join("Cargo.toml"), format!("[package]\nname = \"verif-probes\"\nversion = \"0.0.0\"\nedition = \"2021\"\npublish = false\n\n[workspace]\n\n[dependencies]\nmetrics = {{ path = \"{}/metrics\" }}\n", repo))?;
+        for f in ["Cargo.lock", "rust-toolchain.toml"] {
+            if let Ok(b) = std::fs::read(harness_dir.join(f)) {
+                std::fs::write(dir.join(f), b)?;
+            }
+        }
+        for (name, ty, expr) in PROBES.iter() {
+            let src = format!(
+                "#![allow(unused_imports)]\nuse metrics::{{Key, KeyName, Label, SharedString}};\n\n/// safe code only: the value returned borrows from `local`, which is dropped here\nfn escape() -> {ty} {{\n    let local = String::from(\"built-from-a-local-string-that-is-dropped\");\n    {expr}\n}}\n\nfn main() {{\n    let v = escape();\n    let junk: Vec<String> = (0..8).map(|_| \"#\".repeat(41)).collect();\n    println!(\"PROBE-RAN {{:?}}\", v);\n    drop(junk);\n}}\n",
+                ty = ty,
+                expr = expr
+            );
+            std::fs::write(dir.join("src/bin").join(format!("{}.rs", name)), src)?;
+        }
+        Ok(())
+    })();
+    if let Err(e) = setup {
+        rep.inconclusive.push(format!("cannot write the probe crate under {:?}: {}", dir, e));
+        rep.wall_s = start.elapsed().as_secs_f64();
+        return rep;
+    }
+    const BORROWCK: [&str; 12] = ["E0597", "E0515", "E0716", "E0521", "E0505", "E0506", "E0499", "E0502", "E0503", "E0759", "E0621", "lifetime may not live long enough"];
+    for (i, (name, ty, expr)) in PROBES.iter().enumerate() {
+        let mut ctx = Ctx::default();
+        ctx.fingerprint = Some(i as u64);
+        ctx.desc = Some(format!("fn escape() -> {} {{ let local = String::from(..); {} }} must not compile", ty, expr));
+        ctx.nontrivial("static-value-from-a-borrow-of-a-local");
+        let out = Command::new("cargo").current_dir(&dir).env("CARGO_NET_OFFLINE", "true").env_remove("RUSTFLAGS").args(["check", "--offline", "--quiet", "--bin", name]).output();
+        rep.account(ctx);
+        match out {
+            Err(e) => rep.inconclusive.push(format!("cannot run cargo for probe {}: {}", name, e)),
+            Ok(o) if !o.status.success() => {
+                let err = String::from_utf8_lossy(&o.stderr);
+                if !BORROWCK.iter().any(|c| err.contains(c)) {
+                    rep.inconclusive.push(format!("probe {} was rejected, but not by the borrow checker: {}", name, err.lines().find(|l| l.contains("error")).unwrap_or("").trim()));
+                }
+            }
+            Ok(_) => {
+                let ran = Command::new("cargo").current_dir(&dir).env("CARGO_NET_OFFLINE", "true").env_remove("RUSTFLAGS").args(["run", "--offline", "--quiet", "--bin", name]).output();
+                let shown = ran.map(|r| String::from_utf8_lossy(&r.stdout).lines().last().unwrap_or("").to_string()).unwrap_or_default();
+                let sig = "ill-typed-program-accepted".to_string();
+                if !pr.cfg.is_known(&sig) {
+                    rep.violations.push(Violation { lane: "ill-typed-programs-rejected".into(), sig, msg: format!("safe code `fn escape() -> {} {{ let local = String::from(..); {} }}` compiles: a value usable for 'static is built from a borrow of a local that is dropped on return; running it printed {:?} (built from \"built-from-a-local-string-that-is-dropped\")", ty, expr, shown), bytes: vec![i as u8], sched: vec![], decoded: format!("probe {}", name) });
+                    break;
+                }
+            }
+        }
+    }
+    rep.wall_s = start.elapsed().as_secs_f64();
+    rep
+}
+
+/// Replay of one probe (bytes[0] = index): the whole lane is cheap, so it is simply run again and the verdict of that
+/// probe is reported.
+pub fn case_probe_replay(bytes: &[u8], _s: &[u8], ctx: &mut Ctx) -> Result<(), Fail> {
+    let i = bytes.first().copied().unwrap_or(0) as usize % PROBES.len();
+    ctx.case(&("compile probe", PROBES[i].0));
+    let cfg = RunCfg { tier: crate::engine::runner::Tier::Quick, seed: 1, scale: 1.0, strict: true, known: vec![] };
+    let pr = PropRun::new("C14", &cfg, RULE);
+    let rep = probes(&pr);
+    match rep.violations.iter().find(|v| v.bytes.first().map(|b| *b as usize) == Some(i)) {
+        Some(v) => Err(Fail::new(&v.sig, v.msg.clone())),
+        None => Ok(()),
+    }
+}
+
 pub fn run(cfg: &RunCfg, replay: Option<&str>) -> i32 {
     let mut pr = PropRun::new("C14", cfg, RULE);
     pr.register("ops-allocation-tracked", &case_tracked);
     pr.register("ops-with-threads", &case_threads);
+    pr.register("ill-typed-programs-rejected", &case_probe_replay);
     if let Some(f) = replay {
         return pr.replay(f);
     }
     pr.assume("the conversion Cow<T> -> std::borrow::Cow<T> requires a sized Cowable, which no type implements, so it cannot be exercised; std::borrow::Cow<str> -> Cow<str> is");
+    pr.assume("the compile-probe lane needs `cargo` (the pinned toolchain) at check time; a probe that cannot be built for another reason than the borrow checker makes the lane inconclusive, never a violation");
     pr.assume("a double free or use of freed memory that corrupts the heap kills the supervised worker and is reported as a crash violation; leaks and foreign frees are seen through the per-thread allocation balance, destructor counts through per-instance drop slots");
     let r = pr.run_regressions();
     pr.push(r);
@@ -586,6 +684,8 @@ pub fn run(cfg: &RunCfg, replay: Option<&str>) -> i32 {
     let r = run_lane(&c, "C14", &Lane { name: "ops-with-threads", cases: c.cases(60_000, 1_000_000), max_len: 128, sched_len: 0, workers: 0, f: &case_threads });
     pr.push(r);
     let r = exhaustive(&pr);
+    pr.push(r);
+    let r = probes(&pr);
     pr.push(r);
     pr.finish()
 }
